@@ -39,6 +39,59 @@ static void run_job(job_t* j) {
 }
 static void* worker(void* p) { run_job((job_t*)p); return NULL; }
 
+/* ---- phase 2: PDUs of DIFFERENT threads packed back to back at exactly their header length
+   (as ACF messages are in one packet); every thread writes only its own slots.  An accessor that
+   touches a byte behind its header races with the neighbour's owner. ---- */
+#define NSLOT 64
+typedef struct { int fmt; size_t off; } slot_t;
+static slot_t slots[NSLOT];
+static uint8_t* arena; static size_t arena_len;
+static int g_nthreads;
+typedef struct { int tid; uint64_t seed; int nops; } pjob_t;
+
+static void run_packed(pjob_t* j, uint8_t* mem) {
+    uint64_t s = j->seed;
+    for (int k = 0; k < j->nops; k++) {
+        int sl = (int)(rnd(&s) % (NSLOT / g_nthreads)) * g_nthreads + j->tid;      /* a slot this thread owns */
+        const hv_format_t* f = hv_formats[slots[sl].fmt];
+        int idx = (int)(rnd(&s) % f->nfields);
+        uint64_t v = rnd(&s), out = 0; int ret;
+        uint8_t* pdu = mem + slots[sl].off;
+        switch (rnd(&s) % 4) {
+            case 0: f->set(pdu, idx, 'g', v); break;
+            case 1: if (f->set(pdu, idx, 'd', v) == -1) f->set(pdu, idx, 'g', v); break;
+            case 2: f->get(pdu, idx, 'g', &out); break;
+            default: if (f->init(pdu, 'c', 0, &ret) == -1) f->get(pdu, idx, 'd', &out); break;
+        }
+    }
+}
+static void* pworker(void* p) { run_packed((pjob_t*)p, arena); return NULL; }
+
+/* ---- phase 3: several threads encode the SAME read-only source arrays into their own PDUs
+   (writers must not touch the caller's source objects). ---- */
+#include "avtp/acf/custom/Vss.h"
+static uint32_t src_u32[6] = {1, 0xdeadbeef, 3, 4, 0x80000000u, 6};
+static uint64_t src_u64[3] = {0x0102030405060708ull, 2, 0xffffffffffffffffull};
+static uint16_t src_u16[5] = {1, 0xfffe, 3, 0x8001, 5};
+static char src_str[] = "Vehicle.Speed";
+typedef struct { int tid; int nops; uint8_t pdu[128]; } vjob_t;
+static void run_vss(vjob_t* j) {
+    for (int k = 0; k < j->nops; k++) {
+        memset(j->pdu, 0, 12);
+        Avtp_Vss_t* p = (Avtp_Vss_t*)j->pdu;
+        Avtp_Vss_SetAddrMode(p, VSS_STATIC_ID_MODE);
+        VssPath_t path; path.vss_static_id_path = 7; Avtp_Vss_SetVssPath(p, &path);
+        VssData_t d;
+        switch (k % 4) {
+            case 0: { VssDataUint32Array_t a = { sizeof src_u32, src_u32 }; Avtp_Vss_SetDatatype(p, VSS_UINT32_ARRAY); d.data_uint32_array = &a; Avtp_Vss_SetVssData(p, &d); break; }
+            case 1: { VssDataUint64Array_t a = { sizeof src_u64, src_u64 }; Avtp_Vss_SetDatatype(p, VSS_UINT64_ARRAY); d.data_uint64_array = &a; Avtp_Vss_SetVssData(p, &d); break; }
+            case 2: { VssDataUint16Array_t a = { sizeof src_u16, src_u16 }; Avtp_Vss_SetDatatype(p, VSS_UINT16_ARRAY); d.data_uint16_array = &a; Avtp_Vss_SetVssData(p, &d); break; }
+            default: { VssDataString_t a = { sizeof src_str - 1, src_str }; Avtp_Vss_SetDatatype(p, VSS_STRING); d.data_string = &a; Avtp_Vss_SetVssData(p, &d); break; }
+        }
+    }
+}
+static void* vworker(void* p) { run_vss((vjob_t*)p); return NULL; }
+
 int main(int argc, char** argv) {
     int nthreads = argc > 1 ? atoi(argv[1]) : 8, nops = argc > 2 ? atoi(argv[2]) : 20000;
     uint64_t seed = argc > 3 ? strtoull(argv[3], NULL, 10) : 1;
@@ -55,6 +108,28 @@ int main(int argc, char** argv) {
     for (int t = 0; t < nthreads; t++) {
         if (memcmp(par[t].bufs, seq[t].bufs, sizeof par[t].bufs) || par[t].shared_sum != seq[t].shared_sum) { printf("MISMATCH thread %d\n", t); bad = 1; }
     }
+    /* phase 2 */
+    g_nthreads = nthreads;
+    arena_len = 0;
+    for (int k = 0; k < NSLOT; k++) { slots[k].fmt = (int)(rnd(&s) % hv_nformats); slots[k].off = arena_len; arena_len += (size_t)hv_formats[slots[k].fmt]->header_len_spec; }
+    arena = malloc(arena_len); uint8_t* ref = malloc(arena_len);
+    for (size_t i = 0; i < arena_len; i++) ref[i] = arena[i] = (uint8_t)rnd(&s);
+    pjob_t* pj = calloc(nthreads, sizeof(pjob_t));
+    for (int t = 0; t < nthreads; t++) { pj[t].tid = t; pj[t].seed = rnd(&s) | 1; pj[t].nops = nops; }
+    for (int t = 0; t < nthreads; t++) pthread_create(&th[t], NULL, pworker, &pj[t]);
+    for (int t = 0; t < nthreads; t++) pthread_join(th[t], NULL);
+    for (int t = 0; t < nthreads; t++) run_packed(&pj[t], ref);       /* slots are disjoint: any order gives the same bytes */
+    if (memcmp(arena, ref, arena_len)) { printf("MISMATCH packed arena\n"); bad = 1; }
+    /* phase 3 */
+    vjob_t* vj = calloc(nthreads, sizeof(vjob_t));
+    uint32_t keep32[6]; uint64_t keep64[3]; uint16_t keep16[5];
+    memcpy(keep32, src_u32, sizeof keep32); memcpy(keep64, src_u64, sizeof keep64); memcpy(keep16, src_u16, sizeof keep16);
+    for (int t = 0; t < nthreads; t++) { vj[t].tid = t; vj[t].nops = nops / 4 + 4; }
+    for (int t = 0; t < nthreads; t++) pthread_create(&th[t], NULL, vworker, &vj[t]);
+    for (int t = 0; t < nthreads; t++) pthread_join(th[t], NULL);
+    vjob_t alone; memset(&alone, 0, sizeof alone); alone.nops = nops / 4 + 4; run_vss(&alone);
+    for (int t = 0; t < nthreads; t++) if (memcmp(vj[t].pdu, alone.pdu, sizeof alone.pdu)) { printf("MISMATCH vss thread %d\n", t); bad = 1; }
+    if (memcmp(keep32, src_u32, sizeof keep32) || memcmp(keep64, src_u64, sizeof keep64) || memcmp(keep16, src_u16, sizeof keep16)) { printf("MISMATCH shared source changed\n"); bad = 1; }
     printf("threads=%d ops=%d %s\n", nthreads, nops, bad ? "DIFFERENT" : "same-as-sequential");
     return bad;
 }
